@@ -10,6 +10,7 @@ import (
 	"rvharness/internal/gen"
 
 	regexp2 "github.com/dlclark/regexp2/v2"
+	"github.com/dlclark/regexp2/v2/syntax"
 )
 
 // specCase is one (pattern AST, options, input, start offset) point compared between the Go
@@ -224,4 +225,90 @@ func randOpts(rng *rand.Rand, rtl bool, allowRE2 bool) gen.Opts {
 	o.X = rng.Intn(5) == 0
 	o.RE2 = allowRE2 && rng.Intn(6) == 0
 	return o
+}
+
+// specTreeCheck is leg T: the specification run on the engine's OWN tree (parsed, reduced and
+// rewritten by syntax.Parse, converted structurally by gen.FromGoTree) must give the engine's result.
+// Together with leg S (specification on the generator's AST) this isolates the parser/reducer from
+// the writer/interpreter, and it is the tie for the Lean analyses that run on the Go tree.
+func specTreeCheck(prop string) func(c *core.Ctx, cases []specCase) []core.Outcome {
+	return func(c *core.Ctx, cases []specCase) []core.Outcome {
+		outs := make([]core.Outcome, len(cases))
+		lines := make([]string, len(cases))
+		goAns := make([]string, len(cases))
+		type entry struct {
+			re   *regexp2.Regexp
+			tree *gen.GoTree
+			err  error
+		}
+		cache := map[string]*entry{}
+		for i := range cases {
+			cs := &cases[i]
+			o := &outs[i]
+			gen.AssignGroups(cs.Ast, cs.Opts)
+			pat := cs.Ast.Print(cs.Opts)
+			cs.Pattern = pat
+			key := cs.Opts.String() + "\x00" + pat
+			e := cache[key]
+			if e == nil {
+				e = &entry{}
+				e.re, e.err = regexp2.Compile(pat, regexOptions(cs.Opts))
+				if e.err == nil {
+					e.re.MatchTimeout = 3 * time.Second
+					t, err := syntax.Parse(pat, syntax.ParseOptions{RegexOptions: syntax.RegexOptions(regexOptions(cs.Opts))})
+					if err != nil {
+						e.err = err
+					} else {
+						e.tree = gen.FromGoTree(t)
+					}
+				}
+				cache[key] = e
+			}
+			o.Key = fmt.Sprintf("%s|%s|%d", key, string(cs.Text), cs.Start)
+			if e.err != nil {
+				o.Buckets = append(o.Buckets, "compile-error")
+				continue
+			}
+			if e.tree.Unsupported != "" {
+				o.Buckets = append(o.Buckets, "tree-unsupported:"+strings.SplitN(e.tree.Unsupported, " ", 2)[0])
+				continue
+			}
+			o.Nontrivial = len(cs.Text) > 0
+			o.Buckets = append(o.Buckets, "tree-converted")
+			m, err := e.re.FindRunesMatchStartingAt(cs.Text, cs.Start)
+			if err != nil {
+				continue
+			}
+			ng := e.tree.NGroups
+			goAns[i] = renderMatch(m, ng)
+			lines[i] = fmt.Sprintf("(c01 find %s %d %d %s %s)", core.SBool(cs.Opts.RTL), cs.Start, ng, e.tree.Sexp,
+				gen.EnvSexpNamed(cs.Text, cs.Start, e.tree.Runes, cs.Opts, e.tree.Named))
+		}
+		var idx []int
+		var send []string
+		for i := range cases {
+			if lines[i] != "" {
+				idx = append(idx, i)
+				send = append(send, lines[i])
+			}
+		}
+		res, err := c.RunDriver(send)
+		if err != nil {
+			for i := range outs {
+				if outs[i].Fail == nil {
+					outs[i].Fail = core.DriverFailure(err)
+					break
+				}
+			}
+			return outs
+		}
+		for k, i := range idx {
+			if res[k] != goAns[i] {
+				outs[i].Fail = &core.Failure{Kind: "correspondence-break", Key: prop + ":tree-mismatch:" + classify(cases[i].Ast, cases[i].Opts),
+					Summary:  fmt.Sprintf("the specification run on the engine's own reduced tree differs from the engine's result: pattern %q options %s input %q start %d", cases[i].Pattern, cases[i].Opts, string(cases[i].Text), cases[i].Start),
+					Expected: res[k], Got: goAns[i]}
+			}
+		}
+		return outs
+	}
 }
